@@ -15,6 +15,7 @@
 import Sky.Ledger.Create
 import Sky.Ledger.Sorted
 import Sky.Ledger.Accept
+import Sky.Ledger.Progress
 namespace Sky.Props.C05
 open Sky Sky.Ledger
 
@@ -212,6 +213,33 @@ theorem created_block_passes_processBlock {s f : State} {pool r : List Txn} {whe
   unfold processBlock
   simp only [hc, hg, hnew, hhdr, bind, Except.bind, Bool.false_eq_true, if_false, hb, hx, huxh,
     bne_self_eq_false, hptf, hsame, Bool.not_true]
+
+/-- **a block the publisher creates is EXECUTED by an independent node holding the same chain**: it passes
+`processBlock` (above) and, the follower being in a state histories reach (`Strong`), none of the storage steps can
+fail (`Sky.Ledger.execSigned_succeeds`).  Hypotheses about hashes: the new header hash is not in the follower's
+block store and the parent reference is not the null hash (both hold for real SHA-256 header hashes), and the
+transactions of the block have pairwise distinct hashes / distinct inputs each (`HashInj`, `WfSound`: C09). -/
+theorem created_block_executed {s f : State} {pool r : List Txn} {when_ fee : Nat} {b g last : Block}
+    (h : createBlock s pool when_ = .ok (r, fee))
+    (hu : f.unspent = s.unspent) (hc : f.chain = s.chain) (hx : f.xor = s.xor) (harb : f.cfg.arb = false)
+    (hstf : Strong f) (hwf : ∀ t ∈ r, WfSound t) (hinj : HashInj r)
+    (hg : s.chain.head? = some g) (hl : s.chain.getLast? = some last)
+    (hb : b.txns = r) (hseq : b.seq = last.seq + 1) (htime : b.time = when_) (hprev : b.prev = last.hh)
+    (hbody : b.cb = b.body) (huxh : b.uxh = hex16 s.xor) (hsig : b.sig = true)
+    (hnew : (f.chain.any (·.hh == b.hh)) = false) (hnz : (b.prev == "0000000000000000") = false) :
+    ∃ f', execSigned f b = .ok f' := by
+  have hgf : f.chain.head? = some g := by rw [hc]; exact hg
+  have hlf : f.chain.getLast? = some last := by rw [hc]; exact hl
+  have hne : (g.hh == b.hh) = false := by
+    rw [List.any_eq_false] at hnew
+    have hmem : g ∈ f.chain := by
+      cases hcs : f.chain with
+      | nil => rw [hcs] at hgf; cases hgf
+      | cons a l => rw [hcs] at hgf; simp at hgf; subst hgf; simp
+    have := hnew g hmem
+    simpa using this
+  have hpb := created_block_passes_processBlock h hu hc hx harb hg hl hb hseq htime hprev hbody huxh hne
+  exact execSigned_succeeds hstf (by rw [hb]; exact hwf) hgf hlf hsig hpb hnew hnz (by rw [hb]; exact hinj)
 
 /- FULL conflict clause of the property ("exactly one of two conflicting pending transactions is included,
 the earlier one") is FALSE of code and model in conflict chains X < A < B (X∩A ≠ ∅, A∩B ≠ ∅, X∩B = ∅):
